@@ -145,6 +145,23 @@ def twice_pairs():
                "URL /ztw/c\n  PUT\n    PASTE @ztw\n    200 any\n")
         for conv, nl in (("lf", "\n"), ("crlf", "\r\n"), ("cr", "\r")):
             res.append(("%s_three_hosts_%s" % (nm, conv), inl.replace("\n", nl), mcr.replace("\n", nl)))
+    # a PASTE as the last line under a directive that admits the pasted lines but not many others (a JSON-RPC Method
+    # after its Params / Result, a TAG, a response, an INFO): both forms are acceptable and mean the same
+    okhosts = {
+        "rpc_method": ("URL /zrpc\n  Protocol json-rpc-2.0\n  Method zm\n    Params\n    {\n      \"p\": 1\n    }\n    Result\n    {\n      \"r\": 1\n    }\n", 2,
+                       ["Description", "  text of the method"]),
+        "tag": ("TAG @zt // Tag\n", 1, ["Description", "  text of the tag"]),
+        "tag_nested": ("TAG @zt\n  TAG @zinner\n", 2, ["Description", "  text of the inner tag"]),
+        "info": ("INFO\n  Title \"T\"\n  Version 1\n", 1, ["Description", "  text of the api"]),
+        "server": ("SERVER @zs\n  BaseUrl \"http://z\"\n", 1, ["Description", "  text of the server"]),
+        "response": ("GET /zr\n  200\n", 2, ["Headers", "{", '  "h": "v"', "}", "Body any"]),
+        "request": ("POST /zq\n  200 any\n  Request\n", 2, ["Headers", "{", '  "h": "v"', "}", "Body", "{", '  "b": 1', "}"]),
+    }
+    for hn, (head, dep, body) in okhosts.items():
+        tailtxt = "GET /zafter\n  200 any\n"
+        inl = "JSIGHT 0.3\n" + head + ind(body, dep) + tailtxt
+        mcr = "JSIGHT 0.3\nMACRO @zok\n(\n" + ind(body, 1) + ")\n" + head + ind(["PASTE @zok"], dep) + tailtxt
+        res.append(("paste_ok_%s" % hn, inl, mcr))
     # a PASTE inside EXPLICIT parentheses (of a URL, of a method, of a method in the parentheses of a URL, of a MACRO that is
     # pasted): what the macro brings is placed by the same rule as written lines - a method with a path of its own cannot
     # leave the parenthesis, so the inlined form is rejected and the macro form must not be accepted
